@@ -38,6 +38,10 @@ class C18(CtxCheck):
                 out.append(root + [("op", 0, ("addf", k, fk, f"f:c0:{k}:0", "m")), second, ("enter", 1, False)])
                 out.append(base + [("op", 1, ("addf", k, fk, f"f:c1:{k}:0", "m"))])
             out.append(base + [("op", 0, ("add", "Bd", False, "v:c0:Bd:0", "m")), ("op", 0, ("addf", "ABd", "sync", "f:c0:ABd:0", "m"))])
+        # the parent has already generated its own product (sync and async path) before any other context exists: a context created
+        # afterwards must announce its own first generation
+        for k, fk, api, t in (("Ad", "sync", "nowait", "A"), ("BAd", "async", "async", "B"), ("BAd", "async", "inj_async", "A"), ("ABd", "sync", "inj_sync", "B")):
+            out.append(root + [("op", 0, ("addf", k, fk, f"f:c0:{k}:0", "m")), ("op", 0, ("get", api, t, "default", False))])
         return out
 
     def _units0(self, tier: str, seed: int) -> list:
@@ -211,9 +215,15 @@ class C18(CtxCheck):
     def units(self, tier: str, seed: int) -> list:
         from .c04race import two_type_units
 
-        return self._units0(tier, seed) + two_type_units(tier)
+        from . import reent
+
+        return self._units0(tier, seed) + two_type_units(tier) + reent.units(tier)
 
     def work(self, unit: dict, tier: str) -> dict:
+        if "reent" in unit:
+            from . import reent
+
+            return reent.work(unit, {"events"})
         if "race" in unit:
             from .c04race import RACE
 
@@ -225,6 +235,10 @@ class C18(CtxCheck):
         return self._work0(unit, tier)
 
     def replay(self, rec: dict):  # type: ignore[no-untyped-def]
+        if "reent" in rec.get("program", {}):
+            from . import reent
+
+            return reent.replay(rec, self.id, {"events"})
         if "race" in rec.get("program", {}):
             from .c04race import RACE
 
